@@ -264,6 +264,17 @@ def run_case(case):
                 if c != -math.inf:
                     viol.append({"key": "C16/%s:posterior-finite-outside-support" % fam,
                                  "msg": "cost_function(%r) = %r, expected -inf (prior %r, %s)" % (v, c, prl, cl)})
+            # the prior of the SAME InferenceSetup object is replaced: from then on the new prior's support decides
+            # (a positive interval: the value is also used as a rate constant in the simulated model)
+            lo_, hi_ = (2.0, 3.0) if (fam != "uniform" or pr[2] < 1.0) else (pr[2] + 1.0, pr[2] + 2.0)
+            inf.set_prior({"p0": ["uniform", lo_, hi_]})
+            inf.setup_cost_function()
+            c_in, c_out, c_neg = inf.cost_function(np.array([(lo_ + hi_) / 2])), inf.cost_function(np.array([hi_ + 7.5])), inf.cost_function(np.array([lo_ - 0.5]))
+            C["cost_function_calls_after_set_prior"] += 3
+            if not math.isfinite(c_in) or c_out != -math.inf or c_neg != -math.inf:
+                viol.append({"key": "C16/uniform:prior-replaced-on-used-object",
+                             "msg": "after set_prior(uniform[%r,%r]) on an InferenceSetup that had prior %r: cost inside %r, above %r, below %r (expected finite, -inf, -inf)" % (
+                                 lo_, hi_, prl, c_in, c_out, c_neg)})
     else:
         prs = [list(p) for p in case["priors"]]
         k = len(prs)
